@@ -108,6 +108,9 @@ func Replaying() bool { return os.Getenv("VERIF_REPLAY") != "" }
 func Check(t *testing.T, quickN, thoroughN int, prop func(*rapid.T)) {
 	t.Helper()
 	n := Pick(quickN, thoroughN)
+	if _, shards := Shard(); !Thorough() && shards > 1 {
+		n = (n + shards - 1) / shards // the quick tier's case count is divided over its shards
+	}
 	if v := os.Getenv("VERIF_CHECKS_SCALE"); v != "" {
 		if f, err := strconv.ParseFloat(v, 64); err == nil && f > 0 {
 			n = int(float64(n)*f) + 1
@@ -339,4 +342,17 @@ func Main(m *testing.M, property, level, rule string) {
 	code := m.Run()
 	R.Flush(code != 0)
 	os.Exit(code)
+}
+
+// QuietStderr points the os.Stderr VARIABLE at /dev/null (unless VERIF_LOG is set): some perkeep
+// packages create their own loggers on os.Stderr (every blobpacked instance: "Packing file ...", and on a
+// failed removal a %s of the whole wrapped store - megabytes per line). Runtime panics, race reports and
+// test timeouts still go to the real file descriptor 2.
+func QuietStderr() {
+	if os.Getenv("VERIF_LOG") != "" {
+		return
+	}
+	if f, err := os.OpenFile(os.DevNull, os.O_WRONLY, 0); err == nil {
+		os.Stderr = f
+	}
 }
